@@ -271,7 +271,7 @@ class BaseArray(BaseType):
         if cls.null_terminated:
             return cls.type._write_0(stream, data)
 
-        if not cls.dynamic and cls.num_entries != (actual_size := len(data)):
+        if isinstance(cls.num_entries, int) and max(0, cls.num_entries) != (actual_size := len(data)):
             raise ArraySizeError(f"Expected static array size {cls.num_entries}, got {actual_size} instead.")
 
         return cls.type._write_array(stream, data)
